@@ -17,7 +17,7 @@ Proof. unfold aimd_step. destruct (s_drop s); [reflexivity|]. destruct (_ <=? _)
 
 Lemma vegas_notif v s o : vegas_step v s = Some o -> notif_ok (vegas_est v) (vegas_est (o_st o)) (o_notify o).
 Proof.
-  unfold vegas_step. intros H.
+  unfold vegas_step, vegas_update. intros H.
   repeat match type of H with
   | (if ?c then _ else _) = _ => destruct c
   | (match ?c with Some _ => _ | None => _ end) = _ => destruct c
@@ -131,7 +131,7 @@ Lemma vegas_app_limited v s o : s_drop s = false ->
   flt (mul (of_int (s_inflight s)) two) (v_est v) = true ->
   vegas_step v s = Some o -> v_est (o_st o) = v_est v /\ o_notify o = [].
 Proof.
-  intros Hd Hf. unfold vegas_step. rewrite Hd, Hf. cbv zeta.
+  intros Hd Hf. unfold vegas_step, vegas_update. rewrite Hd, Hf. cbv zeta.
   destruct (vegas_should_probe _ _); [intros H; inversion H; subst; split; reflexivity|].
   destruct (_ || _); intros H; inversion H; subst; split; reflexivity.
 Qed.
@@ -178,7 +178,7 @@ Theorem vegas_baseline v s o : vegas_step v s = Some o ->
   (* update branches: the baseline is untouched and the sample was not below it *)
   (v_noload (o_st o) = v_noload v /\ flt (of_int (s_rtt s)) (v_noload v) = false).
 Proof.
-  unfold vegas_step. cbv zeta.
+  unfold vegas_step, vegas_update. cbv zeta.
   destruct (vegas_should_probe _ _). { intros H; inversion H; subst. left. cbn [o_st mk vegas_set v_noload grad_set g_noload o_branch Z.eqb Pos.eqb]. apply min_add_baseline. }
   destruct (feq (v_noload v) zero || flt (of_int (s_rtt s)) (v_noload v)) eqn:C.
   { intros H; inversion H; subst. left. cbn [o_st mk vegas_set v_noload grad_set g_noload o_branch Z.eqb Pos.eqb]. apply min_add_baseline. }
@@ -211,7 +211,7 @@ Definition from_hist (nl : f64) (hist : list Z) : Prop := nl = zero \/ exists r,
 Theorem vegas_baseline_observed v s o hist : vegas_step v s = Some o -> from_hist (v_noload v) hist ->
   from_hist (v_noload (o_st o)) (if o_branch o =? 1 then [s_rtt s] else s_rtt s :: hist).
 Proof.
-  unfold vegas_step. cbv zeta. intros H Hh.
+  unfold vegas_step, vegas_update. cbv zeta. intros H Hh.
   destruct (vegas_should_probe _ _).
   { inversion H; subst. cbn [o_st mk vegas_set v_noload grad_set g_noload o_branch Z.eqb Pos.eqb]. right. exists (s_rtt s). split; [left; reflexivity|].
     unfold min_add. assert (feq zero zero = true) by reflexivity. rewrite H0. reflexivity. }
